@@ -54,6 +54,7 @@ func (e *Exec) baseEnv(fr *Frame, st *State) *SpecEnv {
 	}
 	// named locals: the latest binding recorded in a block that dominates the current point
 	// (a binding made on another path says nothing here)
+	bound := map[string]*ssa.BasicBlock{} // block of the binding chosen for each name
 	for _, db := range fr.debugSrc {
 		if fr.cur != nil && db.blk != fr.cur && !db.blk.Dominates(fr.cur) {
 			continue
@@ -63,6 +64,43 @@ func (e *Exec) baseEnv(fr *Frame, st *State) *SpecEnv {
 				continue // parameter names denote the argument values (loop invariants see the loop variable)
 			}
 			env.vars[db.name] = v
+			bound[db.name] = db.blk
+		}
+	}
+	// a variable carried round a loop is a phi at the loop head, which no debug reference names: at a point
+	// the head dominates, the phi is the variable's value unless a later assignment (bound above, in a block
+	// the head dominates) has replaced it. Without this, a name used inside an inner loop denoted the value
+	// the variable had before the outer loop.
+	if fr.cur != nil {
+		for _, b := range fr.fn.Blocks {
+			if fr.loops[b] == nil || (b != fr.cur && !b.Dominates(fr.cur)) {
+				continue
+			}
+			for _, in := range b.Instrs {
+				phi, ok := in.(*ssa.Phi)
+				if !ok {
+					break
+				}
+				name := phi.Comment
+				if name == "" {
+					continue
+				}
+				if _, isParam := paramNames(fr.fn)[name]; isParam {
+					continue
+				}
+				v, done := fr.vals[phi]
+				if !done {
+					continue
+				}
+				if bb, ok := bound[name]; ok && bb != b && b.Dominates(bb) {
+					continue // assigned again after the loop head, on the way to this point
+				}
+				if bb, ok := bound[name]; ok && bb == b {
+					continue // assigned in the head block itself
+				}
+				env.vars[name] = v
+				bound[name] = b
+			}
 		}
 	}
 	// named local variables that live in memory (address taken): aggregates are visible as a
@@ -1761,4 +1799,12 @@ func reindexTwins(c string) string {
 		pos = i + len(repl)
 	}
 	return c
+}
+
+func paramNames(fn *ssa.Function) map[string]bool {
+	m := map[string]bool{}
+	for _, p := range fn.Params {
+		m[p.Name()] = true
+	}
+	return m
 }
